@@ -253,11 +253,12 @@ Runnable(s, t) ==
        /\ (fr.pc = "DrRunQ" => s.MQ # <<>>)
 
 \* ------------------------------------------------------------- the abstract pool (inside "InPool")
-\* a thread inside pool code (worker loop, schedule(), TaskSet::wait(), ~ThreadPool ...) enters run() of a
-\* queued future; the scheduling thread itself only when queuing was not forced
+\* a thread inside pool code (worker loop, TaskSet::wait(), ~ThreadPool ...) enters run() of a queued future;
+\* a thread inside schedule() only the one it is scheduling (inline execution: pool loaded, or - even with
+\* ForceQueuingTag - a pool without threads)
 PoolMayEnter(s, t, g) ==
   /\ s.K[t] # <<>> /\ Top(s, t).pc = "InPool" /\ g \in s.Q
-  /\ (Top(s, t).p = "sched" => (Top(s, t).f = g /\ M[g].a = 0))
+  /\ (Top(s, t).p = "sched" => Top(s, t).f = g)
 PoolEnterStep(s, t, g) == EnterRun([s EXCEPT !.out = <<>>, !.RV = 0, !.Q = @ \ {g}], t, g)
 \* the pool call returns (TaskSet::wait() / ~TaskSet only with an outstanding count of zero)
 PoolMayReturn(s, t) ==
